@@ -1,7 +1,7 @@
 (* C20 — theorems (statements in full; proofs in ProofsA..D). The model follows /repo after the
    nine C20 fix: commits (025b717 6c29d69 941ab7d a355167 e099dce 1b429d0 0a72c3c c72865a 6e820e7). *)
-From Coq Require Import List NArith ZArith Bool.
-From LTV.C20 Require Import ParamsGen Model ProofsA ProofsB ProofsC ProofsD ProofsE ProofsG Fetcher FetcherC08.
+From Coq Require Import List NArith ZArith Bool Sorting.Sorted.
+From LTV.C20 Require Import ParamsGen Model ProofsA ProofsB ProofsC ProofsD ProofsE ProofsG ProofsH Fetcher FetcherC08 FetcherX.
 Import ListNotations.
 Local Open Scope N_scope.
 
@@ -168,6 +168,42 @@ Print Assumptions magnet_same_download.
 
 (* the first-peer-metadata_size-wins mechanism, as a statement of what happens (not a violation) *)
 Theorem first_size_wins : forall (H : list N -> list N) ops s n,
-  f_size s = Some n -> f_size (fold_left (fstep H) ops s) = Some n.
+  2 <= n -> f_size s = Some n -> f_size (fold_left (fstep H) ops s) = Some n.
 Proof. exact Fetcher.first_size_wins. Qed.
 Print Assumptions first_size_wins.
+
+(* the executable fetcher model used for the single-provider correspondence (delegator = oracle):
+   it, too, completes only with metadata whose hash is the requested one *)
+Theorem fetch_completes_only_verified : forall (H : list N -> list N) want ops d,
+  g_done (grun H (ginit want) ops) = Some d -> H d = want.
+Proof. exact FetcherX.fetch_completes_only_verified. Qed.
+Print Assumptions fetch_completes_only_verified.
+
+(* std::set_difference on sorted ranges: what it keeps from a strictly ascending range has no
+   counterpart (same wire bytes) in the other ascending range *)
+Theorem set_diff_sound : forall a b, asc_strict a -> asc b ->
+  forall e, In e (set_diff a b) -> forall e', In e' b -> ~ same_entry e e'.
+Proof. exact ProofsH.set_diff_sound. Qed.
+Print Assumptions set_diff_sound.
+
+(* PEX 'dropped' exactness, PARTIAL: proved for one round over at most 200 listed peers under two
+   hypotheses that are themselves preserved by such rounds (pex_list_strict_after_round) but are
+   not yet carried through all ops as reachable-state invariants: m_ut_pex_list strictly ascending,
+   and no two connections of one peer. Every dropped entry was listed and has the wire bytes of no
+   currently connected peer with a port. The > 200 branch (cap + re-sort) remains tied by exact
+   correspondence on the unit-level rounds only. *)
+Theorem pex_dropped_exact_partial : forall d d1 a r e,
+  do_peer_exchange d = DpeOk d1 ->
+  N.of_nat (length (sort_entries (current_entries (d_conns d)))) <= Params.c20_max_pex_list ->
+  asc_strict (d_list d) ->
+  d_delta d1 = Some (a, r) -> In e r ->
+  In e (d_list d) /\ forall e', In e' (sort_entries (current_entries (d_conns d))) -> ~ same_entry e e'.
+Proof. exact ProofsH.pex_dropped_exact. Qed.
+Print Assumptions pex_dropped_exact_partial.
+
+Theorem pex_list_strict_after_round : forall d d1,
+  do_peer_exchange d = DpeOk d1 ->
+  N.of_nat (length (sort_entries (current_entries (d_conns d)))) <= Params.c20_max_pex_list ->
+  NoDup (map c_peer (d_conns d)) -> asc_strict (d_list d1).
+Proof. exact ProofsH.pex_list_strict_after_round. Qed.
+Print Assumptions pex_list_strict_after_round.
